@@ -129,6 +129,11 @@ def gen_file_ops(ctx):
             lens = sorted(set([0, 1, rest, rest + 1, max(rest - 1, 0), min(rest, 32768), min(rest, 32769), min(rest, 32767), min(rest, 64), r.randrange(0, rest + 1)]))
             for nb in lens:
                 ops.append((d, off, nb))
+    # the same (size, offset, nbytes) on different contents back to back: the digest depends on the bytes read now, not on an earlier call
+    for sz in (64, 1000, 32768):
+        for off, nb in ((0, 0), (1, sz - 2), (0, sz)):
+            for _ in range(3):
+                ops.append(('R%d,%d' % (r.randrange(1, 1 << 30), sz), off, nb))
     ops += [('R7,10', -1, 0), ('R7,10', 0, -1), ('R7,10', -3, -3)]        # EINVAL path
     return ops
 
@@ -312,6 +317,25 @@ def run(ctx, replay=None):
             sig = {'op': 'md5file', 'observed': classify(got, want), 'read': 'short-reads' if mode == 's' else 'interrupted-read'}
             ctx.report('impl-vs-spec', sig, 'md5file with %s: the digest returned is not MD5 of exactly the requested range (%s)' % (sig['read'], sig['observed']),
                        {'op': o, 'expected': want + (' or FALSE' if mode == 'e' else ''), 'actual': got, 'length': n})
+    # one process, the same (size, offset, nbytes) on different contents back to back (the parallel runs above spread neighbouring
+    # ops over several processes): what an earlier call read must not come back
+    seq_ops, seq_ref = [], []
+    for sz in (64, 1000, 40000):
+        for off, nb in ((0, 0), (1, sz - 2), (0, sz)):
+            for _ in range(3):
+                d = 'R%d,%d' % (ctx.rng.randrange(1, 1 << 30), sz)
+                f = materialise(d)
+                seq_ops.append('md5file %s %d %d' % (d, off, nb)); seq_ref.append(hashlib.md5(f[off:off + (nb or len(f) - off)]).hexdigest())
+    rc, o, e = ctx.run([exe], inp=('\n'.join(seq_ops) + '\n').encode(), timeout=300)
+    sl_seq = o.decode('latin1').splitlines()
+    for o_, want, got in zip(seq_ops, seq_ref, sl_seq + ['MISSING'] * len(seq_ops)):
+        ctx.cov['evaluations'] += 1
+        ctx.count('file-same-range-new-contents')
+        if got != want:
+            ctx.report('impl-vs-spec', {'op': 'md5file', 'observed': classify(got, want), 'history': 'same-range-new-contents'},
+                       'md5file: the digest is not MD5 of the bytes the file holds now (same size, offset and length as the call before, other contents)',
+                       {'ops': seq_ops[:seq_ops.index(o_) + 1][-3:], 'expected': want, 'actual': got})
+            break
     nper = len(xs) * len(OPS)
     for k in (min(102, len(ops) - 1), min(nper // 3 + 4, len(ops) - 1), max(nper - 12, 0), len(ops) - 7):
         ctx.sample({'op': ops[k][:120], 'impl': il[k], 'model': ml[k], 'spec': spec.get(k)})
